@@ -7,6 +7,7 @@ import (
 	"fmt"
 	"go/types"
 	"math/big"
+	"regexp"
 	"strings"
 )
 
@@ -358,6 +359,25 @@ func init() {
 		}
 		return intrinsics[CM+"BytesToAddress"](ex, []Val{ex.mkBytes(bs)})
 	})
+	reg(CM+"FromHex", func(ex *Exec, a []Val) Val {
+		s := ex.bytesOf(a[0])
+		if len(s) >= 2 && ex.Branch(ex.has0x(s)) {
+			s = s[2:]
+		}
+		if len(s)%2 == 1 {
+			s = append(ex.constBytes("0"), s...)
+		}
+		var bs []*Term
+		for i := 0; i+1 < len(s); i += 2 {
+			ok1, v1 := ex.hexDigitVal(s[i])
+			ok2, v2 := ex.hexDigitVal(s[i+1])
+			if !ex.Branch(ex.tf.And(ok1, ok2)) {
+				break
+			}
+			bs = append(bs, ex.tf.BVOr(ex.tf.BVShl(v1, ex.tf.BVu(4, 8)), v2))
+		}
+		return ex.mkBytes(bs)
+	})
 	reg(CM+"IsHexAddress", func(ex *Exec, a []Val) Val {
 		s := ex.bytesOf(a[0])
 		if len(s) >= 2 && ex.Branch(ex.has0x(s)) {
@@ -376,11 +396,11 @@ func init() {
 	reg("("+CM+"Address).Bytes", func(ex *Exec, a []Val) Val { return ex.mkBytes(ex.bytesOf(a[0])) })
 	reg("("+CM+"Address).Hex", func(ex *Exec, a []Val) Val {
 		bs := ex.bytesOf(a[0])
-		if _, ok := concreteBytes(bs); !ok {
+		cs, ok := concreteBytes(bs)
+		if !ok {
 			ex.unmodelled("checksummed Hex() of symbolic address")
 		}
-		ex.unmodelled("common.Address.Hex (EIP-55 checksum needs keccak)")
-		return nil
+		return ex.mkStr(eip55([]byte(cs)))
 	})
 	intrinsics["("+CM+"Address).String"] = intrinsics["("+CM+"Address).Hex"]
 	reg("("+CM+"Hash).Bytes", func(ex *Exec, a []Val) Val { return ex.mkBytes(ex.bytesOf(a[0])) })
@@ -595,3 +615,38 @@ func (ex *Exec) zeroOfResult(name string) Val {
 var _ = hex.EncodeToString
 var _ = big.NewInt
 var _ types.Type
+
+// ---------- regexp (concrete patterns and subjects only), abi packing ----------
+
+type RegexObj struct{ re *regexp.Regexp }
+
+func init() {
+	reg("regexp.MustCompile", func(ex *Exec, a []Val) Val {
+		return PtrV{C: ex.newCell(&RegexObj{re: regexp.MustCompile(ex.argStr(a[0], "regexp pattern"))})}
+	})
+	reg("(*regexp.Regexp).FindStringSubmatch", func(ex *Exec, a []Val) Val {
+		r := ex.load(a[0].(PtrV)).(*RegexObj)
+		m := r.re.FindStringSubmatch(ex.argStr(a[1], "regexp subject"))
+		if m == nil {
+			return SliceV{Nil: true}
+		}
+		el := make([]Val, len(m))
+		for i := range m {
+			el[i] = ex.mkStr(m[i])
+		}
+		return ex.newSlice(el, len(el))
+	})
+	reg("(*regexp.Regexp).MatchString", func(ex *Exec, a []Val) Val {
+		r := ex.load(a[0].(PtrV)).(*RegexObj)
+		return ex.tf.Bool(r.re.MatchString(ex.argStr(a[1], "regexp subject")))
+	})
+	// abi.Arguments.Pack: the packed output is an opaque non-nil byte string; nothing in the
+	// handlers reads it back.
+	reg("github.com/ethereum/go-ethereum/accounts/abi.NewType", func(ex *Exec, a []Val) Val {
+		// zero abi.Type (the packed bytes are opaque anyway) and a nil error
+		return ex.zeroOfResult("github.com/ethereum/go-ethereum/accounts/abi.NewType")
+	})
+	reg("(github.com/ethereum/go-ethereum/accounts/abi.Arguments).Pack", func(ex *Exec, a []Val) Val {
+		return TupleV{ex.mkBytes(ex.constBytes("\x00abi-packed-output")), IfaceV{}}
+	})
+}
